@@ -12,6 +12,7 @@ func init() {
 			"FE-CLASS: lexerql.IsIdentStartRune / IsIdentRune / IsDigit / IsLetter are exactly the ASCII classes; IsValidLabel applies them to first/rest and rejects the empty name",
 			"PV-API: getLabels (Docker labels, after the fixed labels), LabelSet.SetAttrs, json extractAll store under KeyToLabel(key) on every path",
 			"the openLog origin rule: the container id never comes from a (sanitised) label",
+			"PV-API keyword lookup exact (mixed-case names stay identifiers)",
 		},
 		NotDecided: []string{"the empty key (maps to the empty name; recorded as an assumption)", "collisions of two Docker keys that sanitise to the same name", "that the representatives cover every rune: they cover both sides of every comparison constant in the ASCII range and letters/digits/symbols outside it"},
 		Rules: func(r *Run) {
